@@ -80,12 +80,14 @@ def gen(seed, run, sub="direct", tier="quick"):
             t2 += r.choice([0, 0.001, 0.1, 0.3])
             second.append([round(t2, 6), s2[pos2:pos2 + sz].hex()])
             pos2 += sz
+    sched = common.gen_sched(r, "%s/%s/c17" % (seed, run), est_steps=2000, victims=("read", "main", "send"))
+    if sub == "direct":
+        sched["p_stall"] = 0.0      # one thread only: stalling it just burns virtual time
     return {
         "second": second, "wfail_at": wfail_at,
         "lane": "c17", "sub": sub, "arrivals": arrivals, "end": end, "end_at": round(t, 6),
         "draws": draws, "cfg": {"greeting": ""}, "max_steps": 400000 + int(80 * t),
-        "sched": common.gen_sched(r, "%s/%s/c17" % (seed, run), est_steps=2000,
-                                  victims=("read", "main", "send")),
+        "sched": sched,
     }
 
 
